@@ -1,7 +1,9 @@
 package main
 
 import (
+	"fmt"
 	"go/ast"
+	"go/token"
 	"path/filepath"
 	"strings"
 )
@@ -266,6 +268,45 @@ func genRestart(repo, out string) {
 
 	// ---- runtime.go
 	watchErrAborts := false
+	watchErrSend := "unknown"
+
+	// isErrSend: the statement `runtime.watchErrors <- e.Error`
+	isErrSend := func(st ast.Stmt) bool {
+		ss, ok := st.(*ast.SendStmt)
+
+		return ok && src(ss.Chan) == "runtime.watchErrors" && src(ss.Value) == "e.Error"
+	}
+
+	// sendKind classifies how the failed watch is reported to Run:
+	//   plain       `runtime.watchErrors <- e.Error`                                                       (blocks until buffered or received)
+	//   ctxAware    `select { case runtime.watchErrors <- e.Error: case <-runtime.runCtx.Done(): }`        (gives up on cancellation)
+	//   nonBlocking `select { case runtime.watchErrors <- e.Error: default: }`                             (drops the error when it would block)
+	sendKind := func(st ast.Stmt) string {
+		if isErrSend(st) {
+			return "plain"
+		}
+
+		sel, ok := st.(*ast.SelectStmt)
+		if !ok || len(sel.Body.List) != 2 {
+			return "unknown"
+		}
+
+		a, aok := sel.Body.List[0].(*ast.CommClause)
+		b, bok := sel.Body.List[1].(*ast.CommClause)
+
+		if !aok || !bok || a.Comm == nil || !isErrSend(a.Comm) || len(a.Body) != 0 || len(b.Body) != 0 {
+			return "unknown"
+		}
+
+		switch {
+		case b.Comm == nil:
+			return "nonBlocking"
+		case src(b.Comm) == "<-runtime.runCtx.Done()":
+			return "ctxAware"
+		default:
+			return "unknown"
+		}
+	}
 
 	if fd := method(rt, "Runtime", "processEvents"); fd != nil {
 		ast.Inspect(fd.Body, func(x ast.Node) bool {
@@ -274,14 +315,97 @@ func genRestart(repo, out string) {
 				return true
 			}
 
-			if s, ok := rs.Body.List[0].(*ast.IfStmt); ok && src(s.Cond) == "e.Type == state.Errored" && len(s.Body.List) == 2 &&
-				src(s.Body.List[0]) == "runtime.watchErrors <- e.Error" && src(s.Body.List[1]) == "return false" {
-				watchErrAborts = true
+			if s, ok := rs.Body.List[0].(*ast.IfStmt); ok && src(s.Cond) == "e.Type == state.Errored" && s.Init == nil && s.Else == nil && len(s.Body.List) == 2 &&
+				src(s.Body.List[1]) == "return false" {
+				watchErrSend = sendKind(s.Body.List[0])
+				watchErrAborts = watchErrSend != "unknown"
 			}
 
 			return false
 		})
 	}
+
+	// the channel itself: `watchErrors: make(chan error, N)` in NewRuntime (N an integer literal; no second argument = 0),
+	// and who touches it: in the whole package (non-test files) `runtime.watchErrors` occurs exactly twice, the send in
+	// processEvents and the receive in Run's select; the field is assigned nowhere else.
+	var watchErrCap int64
+
+	watchErrCapKnown := false
+
+	if fd := method(rt, "", "NewRuntime"); fd != nil {
+		n := 0
+
+		ast.Inspect(fd.Body, func(x ast.Node) bool {
+			kv, ok := x.(*ast.KeyValueExpr)
+			if !ok || src(kv.Key) != "watchErrors" {
+				return true
+			}
+
+			n++
+
+			call, ok := kv.Value.(*ast.CallExpr)
+			if !ok || src(call.Fun) != "make" || len(call.Args) == 0 || src(call.Args[0]) != "chan error" {
+				n = -100
+
+				return true
+			}
+
+			switch len(call.Args) {
+			case 1:
+				watchErrCap, watchErrCapKnown = 0, true
+			case 2:
+				if lit, ok := call.Args[1].(*ast.BasicLit); ok && lit.Kind == token.INT {
+					var v int64
+
+					if _, err := fmt.Sscanf(lit.Value, "%d", &v); err == nil && fmt.Sprint(v) == lit.Value && v >= 0 && v < 1<<20 {
+						watchErrCap, watchErrCapKnown = v, true
+					}
+				}
+			}
+
+			return true
+		})
+
+		if n != 1 {
+			watchErrCap, watchErrCapKnown = 0, false
+		}
+	}
+
+	chanUses, chanSend, chanRecv, chanOtherFiles := 0, 0, 0, 0
+
+	pkgFiles, _ := filepath.Glob(filepath.Join(repo, "pkg/controller/runtime/*.go")) //nolint:errcheck
+	for _, pf := range pkgFiles {
+		if strings.HasSuffix(pf, "_test.go") {
+			continue
+		}
+
+		f := parse(pf)
+
+		ast.Inspect(f, func(x ast.Node) bool {
+			switch n := x.(type) {
+			case *ast.SelectorExpr:
+				if n.Sel.Name == "watchErrors" {
+					chanUses++
+
+					if filepath.Base(pf) != "runtime.go" {
+						chanOtherFiles++
+					}
+				}
+			case *ast.SendStmt:
+				if src(n.Chan) == "runtime.watchErrors" {
+					chanSend++
+				}
+			case *ast.UnaryExpr:
+				if n.Op == token.ARROW && src(n.X) == "runtime.watchErrors" {
+					chanRecv++
+				}
+			}
+
+			return true
+		})
+	}
+
+	watchErrChanPrivate := watchErrCapKnown && chanUses == 2 && chanSend == 1 && chanRecv == 1 && chanOtherFiles == 0
 
 	dedupStops := 0
 
@@ -362,7 +486,12 @@ func genRestart(repo, out string) {
 	b("task.runWithRestarts: `for … { err := runWithPanicHandler(ctx); if err == nil { …; return }; interval := backoff.NextBackOff(); …; select { ctx.Done: return; time.After(interval): } }`", "taskLoopShape", taskLoopShape)
 	b("task.runWithRestarts never calls backoff.Reset()", "taskNoReset", taskNoReset)
 	b("task.runWithPanicHandler recovers a panic of RunTask into an error", "taskRecovers", taskRecovers)
-	b("runtime.processEvents: the first statement of the event loop is `if e.Type == state.Errored { runtime.watchErrors <- e.Error; return false }`", "watchErrAborts", watchErrAborts)
+	b("runtime.processEvents: the first statement of the event loop is `if e.Type == state.Errored { <report e.Error on runtime.watchErrors>; return false }`, the report being one of the shapes of `watchErrSend`", "watchErrAborts", watchErrAborts)
+	l.line("/-- runtime.processEvents: how the failed watch is reported: `.plain` = `runtime.watchErrors <- e.Error` (a bare send: completes only into a free buffer slot or a waiting receiver, does not look at the context), `.ctxAware` = the same send in a select with `<-runtime.runCtx.Done()`, `.nonBlocking` = in a select with an empty `default` -/")
+	l.line("def watchErrSend : SendKind := .%s", watchErrSend)
+	l.line("/-- runtime.NewRuntime: `watchErrors: make(chan error, N)`: N (0 = unbuffered, or not of this shape) -/")
+	l.line("def watchErrCap : Nat := %d", watchErrCap)
+	b("package runtime (non-test files): `runtime.watchErrors` occurs exactly twice, the send in processEvents and the receive in Run's select (one sender site, one receiver), and is made once in NewRuntime by a recognised `make(chan error[, N])`", "watchErrChanPrivate", watchErrChanPrivate)
 	b("runtime.deduplicateWatchEvents: every processEvents call is `if !runtime.processEvents(events, m) { return }`", "dedupStopsOnAbort", dedupStops >= 1)
 	b("runtime.Run: `select { case <-runCtx.Done(): case watchErr = <-watchErrors: watchErr = fmt.Errorf(\"…%w\", watchErr) }` then `runCtxCancel(); group.Wait(); return watchErr`", "runReturnsWatchErr", runReturnsWatchErr)
 	b("runtime.Run cancels runCtx and waits for the goroutine group before returning", "runCancelsAndWaits", runCancelsAndWaits)
